@@ -45,7 +45,7 @@ Proof.
   intros s Hr. pose proof (reachable_inv s Hr) as Hi. repeat split.
   - destruct (get_laws _ _ _ _ _ Hi H) as [W _]. exact W.
   - destruct (get_laws _ _ _ _ _ Hi H) as [_ [F _]]. exact F.
-  - intros a k v s' E. destruct (set_laws _ _ _ _ _ Hi E) as [at_ [isv [l [H1 [H2 [H3 [H4 _]]]]]]]. eauto 8.
+  - intros a k v s' E. destruct (set_laws _ _ _ _ _ Hi E) as [at_ [isv [l [H1 [H2 [_ [H3 [H4 _]]]]]]]]. eauto 8.
   - intros a k v s' e E. eapply set_err_unchanged; eauto.
   - destruct (create_laws _ _ _ _ _ _ _ Hi H H0) as [at' [L [T [Z0 [D [R0 [F N]]]]]]]. eauto.
   - destruct (create_laws _ _ _ _ _ _ _ Hi H H0) as [at' [L [T [Z0 [D [R0 [F N]]]]]]]. exact F.
@@ -206,7 +206,9 @@ Proof.
     split; [exact ND|]. unfold step. simpl. change (attrs (tick s)) with (attrs s). rewrite La.
     unfold len_attr, do_contains. simpl. rewrite La, St. repeat split; auto.
     + intros k v s' E. unfold do_set in E. change (attrs (tick s)) with (attrs s) in E. rewrite La, St in E.
-      destruct (sparse_validate (aty at_) (asz at_) v) as [e|[[|] l]]; inversion E; subst; simpl;
+      unfold sparse_vec_uses_attr_dtype, sparse_scal_converted in E.
+      destruct (sparse_validate (aty at_) (asz at_) v) as [e|[[|] l]]; [discriminate E| |];
+        (destruct (existsb (overflows (aty at_)) l); [discriminate E|]); inversion E; subst; simpl;
         rewrite lookup_put_same; eexists; eexists; (split; [reflexivity|]); (split; [reflexivity|]);
           intros j; apply upsert_keys_iff.
     + intros s' E. unfold do_clear_attr in E. change (attrs (tick s)) with (attrs s) in E. rewrite La, St in E.
@@ -276,3 +278,157 @@ Proof.
   intros s m s' w C E. unfold step in E. simpl in E. change (corner (tick s)) with (corner s) in E. rewrite C in E.
   inversion E; subst. auto.
 Qed.
+
+(* ------------------------------------------------------------------ history-level: the last value written, or else the default *)
+Fixpoint untouched (h : list op) (a k : Z) : Prop :=
+  match h with [] => True | o :: t => ~ touches o a k /\ untouched t a k end.
+
+Lemma sn_step s o : inv s -> op_ok o -> o <> ClearAll -> sn s <= sn (fst (step s o)).
+Proof.
+  intros Hi Ho NC. unfold step. change (sn s) with (sn (tick s)). apply inv_tick in Hi. set (t := tick s) in *. clearbody t.
+  destruct Hi as [N0 _].
+  destruct o; simpl in Ho; cbn [fst]; try (simpl; lia); try congruence; try contradiction.
+  - unfold do_create. repeat (match goal with |- context [match ?x with _ => _ end] => destruct x end); simpl; lia.
+  - unfold do_set. repeat (match goal with |- context [match ?x with _ => _ end] => destruct x end); simpl; lia.
+  - unfold do_get. repeat (match goal with |- context [match ?x with _ => _ end] => destruct x end); simpl; lia.
+  - unfold do_mut. destruct (nth_error (refs t) r) as [[id|a st k|a st|]|]; cbn [fst]; try lia.
+    + destruct (mut_ref_fields t (RObj id) c x) as [_ [Q _]]. rewrite Q. lia.
+    + destruct (mut_ref_fields t (RRow a st k) c x) as [_ [Q _]]. rewrite Q. lia.
+  - unfold do_clear_attr. repeat (match goal with |- context [match ?x with _ => _ end] => destruct x end); simpl; lia.
+  - destruct (as_array_fields t a) as [_ [_ [Q _]]]. rewrite Q. lia.
+  - destruct (lookup a (attrs t)); simpl; lia.
+  - destruct (lookup a (attrs t)) as [x|]; [destruct (ast x)|]; simpl; lia.
+  - unfold do_update. destruct (do_get t a key) as [s1 w1] eqn:G.
+    assert (Q : sn s1 = sn t).
+    { assert (S1 : s1 = fst (do_get t a key)) by now rewrite G. subst s1. unfold do_get.
+      repeat (match goal with |- context [match ?x with _ => _ end] => destruct x end); reflexivity. }
+    destruct w1; cbn [fst]; try lia. destruct isvec; cbn [fst]; [|lia].
+    destruct ((c <? 0) || (c >=? Z.of_nat (length row))); cbn [fst]; [lia|].
+    destruct (match lookup a (attrs t) with Some at_ => overflows (aty at_) x | None => false end); cbn [fst]; [lia|].
+    destruct (nth_error (refs s1) (length (refs t))) as [rf|]; cbn [fst]; [|lia].
+    destruct (mut_ref_fields s1 rf c x) as [_ [Q2 _]]. rewrite Q2. lia.
+  - unfold do_mut_arr. destruct (nth_error (refs t) r) as [[id|a st k|a st|]|]; cbn [fst]; try lia.
+    destruct (row <? 0); cbn [fst]; [lia|]. destruct (mut_ref_fields t (RRow a st row) c x) as [_ [Q _]]. rewrite Q. lia.
+  - unfold do_contains. repeat (match goal with |- context [match ?x with _ => _ end] => destruct x end); simpl; lia.
+  - destruct (corner t); simpl; lia.
+  - unfold do_register. repeat (match goal with |- context [match ?x with _ => _ end] => destruct x end); simpl; lia.
+Qed.
+
+Lemma frame_run : forall h s a k,
+  inv s -> Forall op_ok h -> untouched h a k -> 0 <= k < sn s -> rd (fst (run s h)) a k = rd s a k.
+Proof.
+  induction h as [|o t IH]; intros s a k Hi Hh Hu Hk; simpl; [reflexivity|].
+  inversion Hh as [|? ? Ho Ht]; subst. destruct Hu as [Nt Hu].
+  pose proof (inv_step s o Hi Ho) as Hi1. pose proof (frame_step s o a k Hi Ho Nt Hk) as F.
+  assert (NC : o <> ClearAll) by (intros Q; subst; apply Nt; exact I).
+  pose proof (sn_step s o Hi Ho NC) as Sn.
+  destruct (step s o) as [s1 w]. simpl in *. specialize (IH s1 a k Hi1 Ht Hu).
+  destruct (run s1 t) as [s2 ws]. simpl in *. rewrite IH; [exact F|lia].
+Qed.
+
+(* "An attribute answers, for every element index of its container, the last value written there or else its
+   default": after an accepted write to (a,k), whatever follows - reads, writes to other entries or attributes,
+   creation / deletion / clearing of other attributes, every kind of growth, refused operations, exports - the entry
+   reads the written value; likewise a created or cleared attribute reads its default at k until (a,k) is written. *)
+Theorem last_write_or_default : forall c h1 a k h2,
+  Forall op_ok h1 -> Forall op_ok h2 -> untouched h2 a k ->
+  let s1 := fst (run (init c) h1) in
+  0 <= k < sn s1 ->
+  (forall v s1', step s1 (SetItem a k v) = (s1', OOk) ->
+     exists at_ isv l, lookup a (attrs s1) = Some at_ /\ sparse_validate (aty at_) (asz at_) v = inr (isv, l) /\
+                       rd (fst (run s1' h2)) a k = Some (written at_ isv l)) /\
+  (forall t e dense d s1', 1 <= e -> step s1 (Create a t e dense d) = (s1', OOk) ->
+     exists at', lookup a (attrs s1') = Some at' /\ rd (fst (run s1' h2)) a k = Some (unset_read (hp s1') at')) /\
+  (forall s1', step s1 (ClearAttr a) = (s1', OOk) ->
+     exists at_, lookup a (attrs s1) = Some at_ /\ rd (fst (run s1' h2)) a k = Some (unset_read (hp s1) at_)).
+Proof.
+  intros c h1 a k h2 H1 H2 Hu s1 Hk. pose proof (inv_run _ _ (inv_init c) H1) as Hi. fold s1 in Hi. repeat split.
+  - intros v s1' E. destruct (set_laws _ _ _ _ _ Hi E) as [at_ [isv [l [L [V [_ [Rk [_ Sn]]]]]]]].
+    exists at_, isv, l. split; [exact L|]. split; [exact V|].
+    pose proof (inv_step s1 (SetItem a k v) Hi I) as Hi'. rewrite E in Hi'. simpl in Hi'.
+    rewrite (frame_run h2 s1' a k Hi' H2 Hu); [exact Rk|lia].
+  - intros t e dense d s1' He E. destruct (create_laws _ _ _ _ _ _ _ Hi He E) as [at' [L [_ [_ [_ [R0 [_ Sn]]]]]]].
+    exists at'. split; [exact L|].
+    pose proof (inv_step s1 (Create a t e dense d) Hi He) as Hi'. rewrite E in Hi'. simpl in Hi'.
+    rewrite (frame_run h2 s1' a k Hi' H2 Hu); [apply R0; exact Hk|lia].
+  - intros s1' E. destruct (clear_laws _ _ _ Hi E) as [at_ [at' [L [_ [_ [R0 [_ Sn]]]]]]].
+    exists at_. split; [exact L|].
+    pose proof (inv_step s1 (ClearAttr a) Hi I) as Hi'. rewrite E in Hi'. simpl in Hi'.
+    rewrite (frame_run h2 s1' a k Hi' H2 Hu); [apply R0; exact Hk|lia].
+Qed.
+
+(* one-step frame for every operation that does not touch (a,k), and the law of deletion *)
+Theorem frame_and_delete : forall s, reachable s ->
+  (forall o a k, op_ok o -> ~ touches o a k -> 0 <= k < sn s -> rd (fst (step s o)) a k = rd s a k) /\
+  (forall a k, rd (fst (step s (Delete a))) a k = None).
+Proof.
+  intros s Hr. pose proof (reachable_inv s Hr) as Hi. split.
+  - intros o a k Ho Nt Hk. now apply frame_step.
+  - intros a k. unfold step, rd. simpl. rewrite lookup_del, Z.eqb_refl. reflexivity.
+Qed.
+
+(* ------------------------------------------------------------------ more refuted statements (known findings) *)
+(* the sparse storage has no bounds check: a write at an index that is not an element of the container is accepted,
+   stays invisible to dense-style reads, and becomes an entry once the container has grown that far *)
+Definition wit_oob : list op :=
+  [Append; Create 0 TInt 1 false None; SetItem 0 5 (VScal (CI 7)); Append; Append; Append; Append; Append; GetItem 0 5].
+
+Theorem agree_out_of_container_refuted :
+  exists c h, Forall op_ok h /\ Forall shared_op h /\ Forall short_op h /\ updates_hit_written (init c) h /\
+              map pub (snd (run (init c) (map (force false) h))) <> map pub (snd (run (init c) (map (force true) h))).
+Proof.
+  exists false, wit_oob. unfold wit_oob.
+  split; [repeat constructor; simpl; lia|]. split; [repeat constructor|]. split; [repeat constructor|].
+  split; [vm_compute; repeat split|]. vm_compute. intros H. discriminate H.
+Qed.
+
+(* ... and a negative key is exported by as_array at row n-1 (numpy wraps it) while entry n-1 reads the default *)
+Theorem sparse_negative_key_export_refuted :
+  exists s, reachable s /\ exists a rows, snd (step s (AsArray a)) = ORows rows /\
+            nth_error rows (Z.to_nat (sn s - 1)) <> rd s a (sn s - 1).
+Proof.
+  exists (fst (run (init false) [Append; Append; Create 0 TInt 1 false None; SetItem 0 (-1) (VScal (CI 5))])).
+  split; [exists false, [Append; Append; Create 0 TInt 1 false None; SetItem 0 (-1) (VScal (CI 5))]; split; [|reflexivity];
+          repeat constructor; simpl; lia|].
+  exists 0, [[CI 0]; [CI 5]]. split; [vm_compute; reflexivity|]. vm_compute. intros H. discriminate H.
+Qed.
+
+(* a string longer than the fixed width is cut by both storages: the value read back is not the value written *)
+Theorem long_string_cut_refuted :
+  exists s a k v s', reachable s /\ step s (SetItem a k v) = (s', OOk) /\
+    exists at_ isv l, lookup a (attrs s) = Some at_ /\ sparse_validate (aty at_) (asz at_) v = inr (isv, l) /\
+                      rd s' a k <> Some (map (cast (aty at_)) l).
+Proof.
+  exists (fst (run (init false) [Append; Create 0 TString 1 true None])), 0, 0, (VStr long_string).
+  eexists. split; [exists false, [Append; Create 0 TString 1 true None]; split; [|reflexivity]; repeat constructor; simpl; lia|].
+  split; [vm_compute; reflexivity|]. do 3 eexists. split; [vm_compute; reflexivity|]. split; [vm_compute; reflexivity|].
+  vm_compute. intros H. discriminate H.
+Qed.
+
+(* ------------------------------------------------------------------ more non-vacuity *)
+Example ex_growth_premise :
+  let s := fst (run (init false) [Append; Create 0 TInt 1 false None; SetItem 0 0 (VScal (CI 3))]) in
+  exists at_ m, lookup 0 (attrs s) = Some at_ /\ ast at_ = Sparse m /\ lookup 1 m = None /\
+                rd (fst (step s Append)) 0 1 = Some (unset_read (hp s) at_) /\ rd (fst (step s Append)) 0 0 = Some [CI 3].
+Proof.
+  cbv zeta. exists (mkattr TInt 1 (DScal (CI 0)) (Sparse [(0, SScal (CI 3))])), [(0, SScal (CI 3))].
+  vm_compute. repeat split; reflexivity.
+Qed.
+
+Example ex_valid_vstr : valid_value TString 3 (VStr [97; 98; 99]) /\ valid_value TString 1 (VStr [97; 98; 99]) /\
+                        ~ valid_value TInt 3 (VStr [97; 98; 99]).
+Proof.
+  split; [|split].
+  - exists [CS [97]; CS [98]; CS [99]]. repeat split; auto. repeat constructor; exists TString; split; auto; left; auto.
+  - exists [CS [97; 98; 99]]. repeat split; auto. repeat constructor; exists TString; split; auto; left; auto.
+  - intros [l [H1 [_ H3]]]. vm_compute in H1. inversion H1; subst. inversion H3 as [|? ? [tv [K W]] _]; subst.
+    simpl in K. inversion K; subst. destruct W as [W|[[W _]|[[W _]|[W _]]]]; discriminate.
+Qed.
+
+Example ex_overflow :
+  let s := fst (run (init false) [Append; Create 0 TInt 1 false None; Create 1 TInt 1 true None; Create 2 TFloat 1 false None]) in
+  snd (step s (SetItem 0 0 (VScal (CI (2 ^ 64))))) = OErr EOverflow /\
+  snd (step s (SetItem 1 0 (VScal (CI (2 ^ 63))))) = OErr EOverflow /\
+  rd (fst (step s (SetItem 2 0 (VScal (CI (2 ^ 53 + 1)))))) 2 0 = Some [CF (8 * 2 ^ 53)] /\
+  rd (fst (step s (SetItem 0 0 (VScal (CI (2 ^ 63 - 1)))))) 0 0 = Some [CI (2 ^ 63 - 1)].
+Proof. vm_compute. repeat split; reflexivity. Qed.
